@@ -21,6 +21,9 @@ var pinnedHashPreimage = []string{
 
 func checkC02(c *Ctx) {
 	l := c.L
+	checkIndexReaders(c)
+	c.rule("PASS-root-record", "existence and identity of a version come from its stored root record, not from the node cache or the working tree", 2)
+	checkRootRecord(c, "PASS-root-record")
 	c.rule("FORMAT-hash-preimage", "hash pre-image layout equals the pinned IAVL+ layout in every writer", 3)
 	c.rule("FLOW-hash-version", "the version hashed into a memoised node hash originates from WorkingVersion() or the node's own key", 8)
 	c.rule("EFFECT-readonly", "read-only API writes no field of a shared node except the guarded hash memo", 2)
